@@ -33,8 +33,14 @@ func (x *Exec) Drive(nops int, note string) []GenOp {
 		if x.Cfg.EveryOp || x.rng.Intn(8) == 0 {
 			x.battery()
 		}
+		if x.Cfg.Stats && x.rng.Intn(25) == 0 {
+			x.statsEvent()
+		}
 	}
 	x.battery()
+	if x.Cfg.Stats {
+		x.statsEvent()
+	}
 	x.misuseBattery(nops)
 	// close what is still open; the world must be unlocked afterwards (checked by the monitor)
 	qids := []int{}
@@ -123,6 +129,15 @@ func (x *Exec) randomOp(maxEnt int) (GenOp, bool) {
 	}
 	if len(vs) == 0 {
 		kind = 0
+	}
+	if x.Cfg.ResetP > 0 && len(x.queries) == 0 && x.rng.Intn(1000) < x.Cfg.ResetP {
+		if x.rng.Intn(2) == 0 {
+			return mk("Reset"), true
+		}
+		o := mk("DumpLoad")
+		o.N = 1 + x.rng.Intn(3)
+		o.Mode = []string{"fresh", "reset", "nojson"}[x.rng.Intn(3)]
+		return o, true
 	}
 	if len(x.queries) > 0 {
 		// the world is locked by open queries: advance / close them, open more, write through Set,
@@ -289,8 +304,9 @@ func (x *Exec) randomOp(maxEnt int) (GenOp, bool) {
 	case kind < 88: // AddBatch: filter excludes the added component
 		c := comps[x.rng.Intn(len(comps))]
 		o := mk("AddBatch")
-		o.Mode = "fn"
+		o.Mode = []string{"fn", "val"}[x.rng.Intn(2)]
 		o.Add = []string{c}
+		o.Vals[c] = int64(8000 + x.rng.Intn(100))
 		if isRelName(c) {
 			o.Tg[c] = x.pickTarget(vs)
 		}
@@ -304,10 +320,33 @@ func (x *Exec) randomOp(maxEnt int) (GenOp, bool) {
 		}
 		o.Flt.Without = wo
 		return o, true
+	case kind < 89 && x.rng.Intn(2) == 0: // ExchangeBatch: filter requires the removed and excludes the added component
+		if len(comps) < 2 {
+			return GenOp{}, false
+		}
+		i := x.rng.Intn(len(comps))
+		j := (i + 1 + x.rng.Intn(len(comps)-1)) % len(comps)
+		o := mk("ExchangeBatch")
+		o.Mode = []string{"fn", "val"}[x.rng.Intn(2)]
+		o.Add = []string{comps[i]}
+		o.Rem = []string{comps[j]}
+		o.Vals[comps[i]] = int64(7000 + x.rng.Intn(100))
+		if isRelName(comps[i]) {
+			o.Tg[comps[i]] = x.pickTarget(vs)
+		}
+		o.Flt = x.randomFilter(vs, comps[j])
+		o.Flt.Excl = false
+		for _, w := range o.Flt.With {
+			if w == comps[i] {
+				return GenOp{}, false
+			}
+		}
+		o.Flt.Without = []string{comps[i]}
+		return o, true
 	case kind < 91: // RemoveBatch: filter requires the removed component
 		c := comps[x.rng.Intn(len(comps))]
 		o := mk("RemoveBatch")
-		o.Mode = "fn"
+		o.Mode = []string{"fn", "val"}[x.rng.Intn(2)]
 		o.Rem = []string{c}
 		o.Flt = x.randomFilter(vs, c)
 		x.maybeRegistered(&o)
